@@ -1,0 +1,59 @@
+/*
+ * Verification hooks (model-based conformance checking against the TLA+
+ * specification kept outside this repository).
+ *
+ * Everything in this file is inert unless the library is compiled with
+ * -DSCPI_PARSER_VERIF. With the guard on, the library calls the function
+ * stored in scpi_verif_hook (NULL by default = no effect) at the points
+ * that correspond to actions of the specification.
+ */
+#ifndef SCPI_VERIF_H
+#define SCPI_VERIF_H
+
+#ifdef SCPI_PARSER_VERIF
+
+#include "scpi/types.h"
+
+#ifdef __cplusplus
+extern "C" {
+#endif
+
+    enum _scpi_verif_event_t {
+        SCPI_VE_INPUT_BEGIN = 1, /* p = data, a = len */
+        SCPI_VE_INPUT_APPENDED, /* after memcpy + NUL; a = position */
+        SCPI_VE_INPUT_OVERRUN, /* a = len */
+        SCPI_VE_INPUT_END, /* a = result, b = position */
+        SCPI_VE_PARSE_BEGIN, /* p = data, a = len */
+        SCPI_VE_PARSE_END, /* a = result */
+        SCPI_VE_UNIT_INVALID, /* p = unit start, a = consumed */
+        SCPI_VE_UNIT_BEGIN, /* p = effective header, a = header len, b = command index or -1 */
+        SCPI_VE_UNIT_END, /* a = processCommand result */
+        SCPI_VE_PARAM, /* p = token ptr (or NULL), a = token type, b = (len << 2) | (mandatory << 1) | result */
+        SCPI_VE_WRITE, /* p = data, a = len */
+        SCPI_VE_FLUSH,
+        SCPI_VE_CONTROL, /* a = ctrl, b = val */
+        SCPI_VE_ERROR_PUSH, /* p = info, a = err, b = info_len */
+        SCPI_VE_ERROR_PUSH_END, /* a = err */
+        SCPI_VE_ERROR_POP, /* a = popped code */
+        SCPI_VE_ERROR_CLEAR,
+        SCPI_VE_ERROR_EMIT, /* a = err passed to interface->error (0 = queue empty) */
+        SCPI_VE_REGSET_BEGIN, /* a = name, b = val */
+        SCPI_VE_HEAP_DUP /* p = result pointer, a = wr, b = count */
+    };
+
+    typedef void (*scpi_verif_hook_t)(scpi_t * context, int event, const void * p, long a, long b);
+    extern scpi_verif_hook_t scpi_verif_hook;
+
+#define SCPI_VERIF_EV(ctx, ev, p, a, b) do { if (scpi_verif_hook) scpi_verif_hook((ctx), (ev), (p), (long)(a), (long)(b)); } while (0)
+
+#ifdef __cplusplus
+}
+#endif
+
+#else
+
+#define SCPI_VERIF_EV(ctx, ev, p, a, b) do { } while (0)
+
+#endif /* SCPI_PARSER_VERIF */
+
+#endif /* SCPI_VERIF_H */
